@@ -85,11 +85,20 @@ DecV(cfg, T0, b, prior) == LET T == Resolve(T0) IN
     [] T.k = "uint" -> (LET r == VarOf(b) IN IF ~r.ok THEN Err ELSE Ok([neg |-> FALSE, mag |-> r.x]))
     [] T.k = "int" -> (LET r == VarOf(b) IN IF ~r.ok THEN Err
                        ELSE IF T.flat THEN Ok(FromBits(T.w, r.x)) ELSE Ok(ZagZig(r.x)))
+    [] T.k = "marked" -> IF Marker(cfg, T) THEN (IF b = <<>> THEN Ok(ZeroInt) ELSE IF Len(b) < 4 THEN Err ELSE Ok(FromBits(32, FromLE32(Take(b, 4)))))
+                         ELSE (LET r == VarOf(b) IN IF ~r.ok THEN Err ELSE Ok(ZagZig(r.x)))
     [] T.k = "f32" -> IF b = <<>> THEN Ok(Zero(T)) ELSE IF Len(b) < 4 THEN Err ELSE Ok(Take(b, 4))
     [] T.k = "f64" -> IF b = <<>> THEN Ok(Zero(T)) ELSE IF Len(b) < 8 THEN Err ELSE Ok(Take(b, 8))
     [] T.k = "string" -> Ok(b)
     [] T.k = "bytes" -> IF b = <<>> THEN Ok(Zero(T)) ELSE Ok([nil |-> FALSE, b |-> b])
     [] T.k = "time" -> IF b = <<>> THEN Ok(Zero(T)) ELSE TimeOf(cfg, b)
+    [] T.k = "bqtime" ->      \* flat varint of Unix microseconds (floor division for instants before 1970)
+         (LET r == VarOf(b) IN
+          IF ~r.ok THEN Err
+          ELSE LET us == FromBits(64, r.x)  d == DivSmall(us.mag, 1000000) IN
+               IF ~us.neg THEN Ok([sec |-> [neg |-> FALSE, mag |-> d.q], nsec |-> d.r * 1000])
+               ELSE IF d.r = 0 THEN Ok([sec |-> [neg |-> (d.q # <<>>), mag |-> d.q], nsec |-> 0])
+               ELSE Ok([sec |-> [neg |-> TRUE, mag |-> Inc(d.q)], nsec |-> (1000000 - d.r) * 1000]))
     [] T.k = "null" -> (LET r == DecV(NullCfg(cfg), NullBase(T.of), b, Zero(NullBase(T.of))) IN
                         IF r.ok THEN Ok([valid |-> TRUE, v |-> r.v]) ELSE Err)
     [] T.k = "ptr" -> (LET r == DecV(cfg, T.e, b, IF prior.nil THEN Zero(T.e) ELSE prior.v) IN
